@@ -40,6 +40,12 @@ def gen(rng, n_cases):
     for t in range(n_cases):
         n = int(rng.randint(2, 31))
         m = int(rng.randint(1, 6))
+        if t % 300 == 7 and t < 300 * (3 + n_cases // 20000):
+            # a few large archives: sizes just above the powers of two at which blocked / chunked
+            # nearest-neighbour code paths usually switch
+            k = (t // 300) % (3 if n_cases <= 20000 else 4)
+            n = int([1025, 2049, 1100, 4097][k] + rng.randint(0, 40))
+            m = int(rng.randint(2, 4))
         F = gen_points(rng, n, m)
         mode = int(rng.choice([0, 0, 0, 1, 2, 3, 4, 5, 6]))
         ideal = nadir = pf = None
